@@ -1,3 +1,169 @@
 import B6.Driver.Common
-/-! Driver for C05 — stub (the check for this property is not built yet). -/
-def main : IO Unit := B6.Driver.run { σ := Unit, init := (), step := fun s _ _ => (s, .bad) }
+import B6.Model.SpatialPred
+import B6.Spec.SpatialPred
+/-!
+Driver for C05 (stateless).  Each op line carries the S2 primitive table of one (query, feature) pair, the
+answer is Go's `Matches` (`true` / `false` / `panic`).
+
+text formats
+  bits   : `0`/`1` characters, `-` = empty list                       rows : bits separated by `;`, a row without
+  entries is `e`, no rows at all is `-`
+  polys  : cap-vs-polygon tables separated by `|` (`-` = none), each `nv0,interior,exterior,centreIn,loops`
+           loops = loops separated by `/` (`-` = none), a loop = one digit per edge: 2*within + left (`e` = no edge)
+
+ops
+  `cells point <bits>` `cells path <bits>` `cells area <rows>` `cells other`
+  `cap point <b>` `cap path <b>` `cap area <polys>` `cap other`
+  `point point <b>` `point path <b>` `point area <bits>` `point other`
+  `line point <b>` `line path <b>` `line area <rows>` `line other`
+  `mp point <bits>` `mp path <rows>` `mp area <rows>` `mp other`
+  `feat <sameID> empty`  |  `feat <sameID> point|line|mp <kind> [<table>]`
+  `pip <loops> <x,y>`     loops separated by `|`, vertices `x,y` separated by `;` (E7 integers); answer = S2's
+                          `Polygon.ContainsPoint`; checked against exact integer crossing-number parity unless the
+                          point is within 60 units of the boundary (EXPLORATION: planar reading of small extents)
+
+verdict: `propfail <clause>` when Go's answer differs from the executable spec (`B6.Spec.SpatialPred`) evaluated on
+the table; `diff` when it equals the spec but not the model of the repaired code; else `ok`.
+-/
+open B6.Driver B6.Model.SpatialPred
+namespace B6.Driver.C05
+
+def parseBits (s : String) : Option (List Bool) :=
+  if s == "-" || s == "e" then some [] else
+  s.toList.mapM fun c => if c = '0' then some false else if c = '1' then some true else none
+
+def parseRows (s : String) : Option (List (List Bool)) :=
+  if s == "-" then some [] else (s.splitOn ";").mapM parseBits
+
+def parseBit (s : String) : Option Bool :=
+  if s == "0" then some false else if s == "1" then some true else none
+
+def parseLoop (s : String) : Option (List EdgeRow) :=
+  if s == "e" then some [] else
+  s.toList.mapM fun c =>
+    if c = '0' then some ⟨false, false⟩ else if c = '1' then some ⟨false, true⟩
+    else if c = '2' then some ⟨true, false⟩ else if c = '3' then some ⟨true, true⟩ else none
+
+def parseLoops (s : String) : Option (List (List EdgeRow)) :=
+  if s == "-" then some [] else (s.splitOn "/").mapM parseLoop
+
+def parsePoly (s : String) : Option CapPoly :=
+  match s.splitOn "," with
+  | [nv, i, e, c, ls] => do
+    let nv ← nv.toNat?
+    let i ← parseBits i
+    let e ← parseBits e
+    let c ← parseBit c
+    let ls ← parseLoops ls
+    pure ⟨nv, i, e, c, ls⟩
+  | _ => none
+
+def parsePolys (s : String) : Option (List CapPoly) :=
+  if s == "-" then some [] else (s.splitOn "|").mapM parsePoly
+
+def parsePointTable : List String → Option PointTable
+  | ["point", b] => (parseBit b).map .point
+  | ["path", b] => (parseBit b).map .path
+  | ["area", bs] => (parseBits bs).map .area
+  | ["other"] => some .other
+  | _ => none
+
+def parseLineTable : List String → Option LineTable
+  | ["point", b] => (parseBit b).map .point
+  | ["path", b] => (parseBit b).map .path
+  | ["area", rs] => (parseRows rs).map .area
+  | ["other"] => some .other
+  | _ => none
+
+def parseMpTable : List String → Option MpTable
+  | ["point", bs] => (parseBits bs).map .point
+  | ["path", rs] => (parseRows rs).map .path
+  | ["area", rs] => (parseRows rs).map .area
+  | ["other"] => some .other
+  | _ => none
+
+def parseCellsTable : List String → Option CellsTable
+  | ["point", bs] => (parseBits bs).map .point
+  | ["path", bs] => (parseBits bs).map .path
+  | ["area", rs] => (parseRows rs).map .area
+  | ["other"] => some .other
+  | _ => none
+
+def parseCapTable : List String → Option CapTable
+  | ["point", b] => (parseBit b).map .point
+  | ["path", b] => (parseBit b).map .path
+  | ["area", ps] => (parsePolys ps).map .area
+  | ["other"] => some .other
+  | _ => none
+
+def parseGeo : List String → Option GeoQuery
+  | ["empty"] => some .empty
+  | "point" :: rest => (parsePointTable rest).map .point
+  | "line" :: rest => (parseLineTable rest).map .line
+  | "mp" :: rest => (parseMpTable rest).map .mp
+  | _ => none
+
+def parsePt (s : String) : Option Pt :=
+  match s.splitOn "," with
+  | [x, y] => do
+    let x ← x.toInt?
+    let y ← y.toInt?
+    pure (x, y)
+  | _ => none
+
+def parseIntLoops (s : String) : Option (List (List Pt)) :=
+  (s.splitOn "|").mapM fun l => (l.splitOn ";").mapM parsePt
+
+def renderB (b : Bool) : String := if b then "true" else "false"
+def renderO : Option Bool → String
+  | some b => renderB b
+  | none => "panic"
+
+/-- predicate first (spec), then correspondence (model of the repaired code) -/
+def judge (impl model spec clause : String) : Verdict :=
+  if impl == spec then (if impl == model then .ok else .diff model) else .propfail clause
+
+def pipMargin : Int := 60
+
+def step (_ : Unit) (op impl : String) : Unit × Verdict :=
+  match words op with
+  | "cells" :: rest =>
+    match parseCellsTable rest with
+    | some t => ((), judge impl (renderB (cellsIntersectFeature t)) (renderB (B6.Spec.SpatialPred.cells t)) "cells")
+    | none => ((), .bad)
+  | "cap" :: rest =>
+    match parseCapTable rest with
+    | some t => ((), judge impl (renderO (capMatches true t)) (renderB (B6.Spec.SpatialPred.cap t)) "cap")
+    | none => ((), .bad)
+  | "point" :: rest =>
+    match parsePointTable rest with
+    | some t => ((), judge impl (renderB (pointIntersectsFeature t)) (renderB (B6.Spec.SpatialPred.point t)) "point")
+    | none => ((), .bad)
+  | "line" :: rest =>
+    match parseLineTable rest with
+    | some t => ((), judge impl (renderB (polylineIntersectsFeature t)) (renderB (B6.Spec.SpatialPred.line t)) "polyline")
+    | none => ((), .bad)
+  | "mp" :: rest =>
+    match parseMpTable rest with
+    | some t => ((), judge impl (renderB (multiPolygonIntersectsFeature true t)) (renderB (B6.Spec.SpatialPred.mp t)) "multipolygon")
+    | none => ((), .bad)
+  | "feat" :: same :: rest =>
+    match parseBit same, parseGeo rest with
+    | some s, some q =>
+      ((), judge impl (renderB (intersectsFeatureMatches true s q)) (renderB (B6.Spec.SpatialPred.feature s q)) "intersects-feature")
+    | _, _ => ((), .bad)
+  | ["pip", loops, pt] =>
+    match parseIntLoops loops, parsePt pt with
+    | some ls, some p =>
+      if nearBoundary pipMargin ls p then ((), .ok)   -- too close to an edge for the planar reading: not judged
+      else
+        let o := renderB (polygonContains ls p)
+        ((), if impl == o then .ok else .propfail "pip-oracle")
+    | _, _ => ((), .bad)
+  | _ => ((), .bad)
+
+def family : Family := { σ := Unit, init := (), step := step }
+
+end B6.Driver.C05
+
+def main : IO Unit := B6.Driver.run B6.Driver.C05.family
